@@ -17,9 +17,11 @@ import ast
 import json
 import os
 import random
+import shutil
 import subprocess
 import sys
 import sysconfig
+import tempfile
 import time
 import traceback
 import types
@@ -185,11 +187,9 @@ def canon_const(k):
     return (type(k).__name__, repr(k))  # repr: nan, -0.0, lone surrogates compare reliably
 
 
-def per_offset_lines(c, head_upto=None):
+def per_offset_lines(c):
     out = []
     for s, e, ln in c.co_lines():
-        if head_upto is not None and ln is not None and ln <= head_upto:
-            ln = "HEAD"
         out.extend([ln] * ((e - s) // 2))
     return tuple(out)
 
@@ -200,13 +200,7 @@ def code_summary(c):
         # the class statement's own first line may move from the first decorator to the `class` keyword (excluded, see bound)
         if not is_leaf(c):
             return ("class", c.co_qualname)
-        import dis
-        head = 0
-        for ins in dis.get_instructions(c):
-            if ins.opname == "STORE_NAME" and ins.argval == "__qualname__":
-                head = (ins.positions.lineno if ins.positions and ins.positions.lineno else 0)
-                break
-        return ("class", c.co_qualname, None, c.co_code, per_offset_lines(c, head), consts, c.co_names)
+        return ("class", c.co_qualname, None, c.co_code, consts, c.co_names)
     if is_leaf(c):
         return ("leaf", c.co_qualname, c.co_firstlineno, c.co_code, per_offset_lines(c), consts, c.co_names, c.co_varnames, c.co_flags)
     return ("inner", c.co_qualname, c.co_firstlineno, c.co_flags)
@@ -297,28 +291,41 @@ def static_check(src, filename, checker="typeguard.typechecked", transform=None)
     body = new.body
     cands = [i for i, st in enumerate(body) if is_plain_import_jaxtyping(st)]
     matched = None
+    skip_final = False
+    asy = lambda t: [[ast.dump(d, include_attributes=True) for d in n.decorator_list] for n in ast.walk(t) if isinstance(n, ast.AsyncFunctionDef)]  # noqa: E731
+    if asy(new) != asy(pristine):
+        P.append(("async-def-untouched", "decorator list of an `async def` changed"))
     if len(body) == len(pristine.body):
         if nd + nc > 0:
             P.append(("import-missing", "no statement was added although decorators referring to `jaxtyping` were"))
         matched = -1
     elif len(body) == len(pristine.body) + 1:
+        deco_trouble = any(c.endswith("decorated") or c.endswith("decorator") for c, _ in P)
         for p in cands:
             new.body = body[:p] + body[p + 1:]
             if ast.dump(new, include_attributes=True) == orig_dump:
                 matched = p
                 break
         new.body = body
-        if matched is None:
-            P.append(("import-statement", "exactly one statement was added at module level but removing an `import jaxtyping` does not give back the original"
-                      if cands else "a module-level statement was added that is not `import jaxtyping`"))
-        else:
+        if matched is None and not cands:
+            P.append(("import-statement", "a module-level statement was added that is not `import jaxtyping`"))
+        elif matched is None:
+            # take the candidate that is new w.r.t. the pristine body (same index holds a different statement there)
+            p = next((i for i in cands if i >= len(pristine.body) or not is_plain_import_jaxtyping(pristine.body[i])), cands[0])
+            if not deco_trouble:  # otherwise the dump cannot match and the cause is already reported
+                new.body = body[:p] + body[p + 1:]
+                P.append(("rest-unchanged", first_diff(orig_dump, ast.dump(new, include_attributes=True))))
+                new.body = body
+            matched = p
+            skip_final = True
+        if matched is not None:
             if matched < L:
                 P.append(("import-position", f"`import jaxtyping` inserted at index {matched}, before the end of the docstring/__future__ run ({L})"))
             if first_def is not None and matched > first_def:
                 P.append(("import-position", f"`import jaxtyping` inserted at index {matched}, after the first statement that defines something ({first_def})"))
     else:
         P.append(("module-body-length", f"module body has {len(body)} statements, original {len(pristine.body)}"))
-    if matched is not None:
+    if matched is not None and not skip_final:
         if matched >= 0:
             new.body = body[:matched] + body[matched + 1:]
         got = ast.dump(new, include_attributes=True)
@@ -752,6 +759,118 @@ rec("order", order, Stack().method(), Stack.sm())
 ''',
 }
 
+FRAGMENTS.update({
+    "dispatch-contextmanager-pickle": '''
+import functools, contextlib, pickle
+@functools.singledispatch
+def show(x):
+    return "obj"
+@show.register
+def _(x: int):
+    return "int"
+@show.register(str)
+def _(x):
+    return "str"
+rec("dispatch", show(1), show("s"), show(2.0), sorted(t.__name__ for t in show.registry))
+@contextlib.contextmanager
+def managed(tag: str):
+    rec("enter", tag)
+    try:
+        yield tag.upper()
+    finally:
+        rec("exit", tag)
+with managed("cm") as v:
+    rec("body", v)
+try:
+    with managed("err"):
+        raise KeyError("inside")
+except KeyError:
+    rec("propagated")
+def top_level(x: int) -> int:
+    return x + 1
+rec("pickle", pickle.loads(pickle.dumps(top_level))(1), pickle.loads(pickle.dumps(top_level)) is top_level)
+class Pk:
+    def __init__(self, v: int):
+        self.v = v
+    def __eq__(self, o):
+        return isinstance(o, Pk) and o.v == self.v
+    def __reduce__(self):
+        return (Pk, (self.v,))
+rec("pickle-obj", pickle.loads(pickle.dumps(Pk(3))) == Pk(3))
+''',
+    "dunder-protocols": '''
+class Vec:
+    __slots__ = ("xs",)
+    def __init__(self, *xs: int):
+        self.xs = list(xs)
+    def __add__(self, o: "Vec") -> "Vec":
+        return Vec(*[a + b for a, b in zip(self.xs, o.xs)])
+    def __radd__(self, o):
+        return self if o == 0 else NotImplemented
+    def __getitem__(self, i: int) -> int:
+        return self.xs[i]
+    def __setitem__(self, i: int, v: int) -> None:
+        self.xs[i] = v
+    def __len__(self) -> int:
+        return len(self.xs)
+    def __iter__(self):
+        return iter(self.xs)
+    def __contains__(self, v) -> bool:
+        return v in self.xs
+    def __call__(self, k: int) -> int:
+        return sum(self.xs) * k
+    def __bool__(self) -> bool:
+        return bool(self.xs)
+    def __eq__(self, o) -> bool:
+        return isinstance(o, Vec) and o.xs == self.xs
+    def __hash__(self) -> int:
+        return hash(tuple(self.xs))
+    def __repr__(self) -> str:
+        return "Vec%r" % (tuple(self.xs),)
+    def __enter__(self):
+        rec("vec-enter")
+        return self
+    def __exit__(self, *exc):
+        rec("vec-exit", exc[0] is None)
+        return False
+    def __getattr__(self, name: str):
+        if name.startswith("dyn_"):
+            return name[4:]
+        raise AttributeError(name)
+v = Vec(1, 2) + Vec(3, 4)
+v[0] = 10
+with v as w:
+    pass
+rec("vec", repr(v), v[1], len(v), list(v), 6 in v, v(2), bool(Vec()), v == Vec(10, 6), {v: 1}[Vec(10, 6)], sum([Vec(1), Vec(2)]).xs, v.dyn_abc, hasattr(v, "nope"))
+class Desc:
+    def __set_name__(self, owner, name):
+        self.name = name
+    def __get__(self, inst, owner=None):
+        return ("desc", self.name, inst is None)
+    def __set__(self, inst, value):
+        rec("desc-set", value)
+class Owner:
+    d = Desc()
+    def method(self):
+        return "meth"
+    alias = method
+Owner().d = 5
+rec("desc", Owner.d, Owner().d, Owner().alias(), Owner.alias is Owner.method)
+class Counter:
+    count = 0
+    def __new__(cls, *a):
+        cls.count += 1
+        return super().__new__(cls)
+    def __init__(self, tag: str = "t"):
+        self.tag = tag
+    def __class_getitem__(cls, item):
+        return (cls.__name__, item)
+    def __del__(self):
+        pass
+rec("new", Counter("x").tag, Counter().tag, Counter.count, Counter[int])
+''',
+})
+
 SPECIALS = {
     "empty": "",
     "blank-and-comment": "\n\n# only a comment\n\n",
@@ -929,7 +1048,6 @@ def main():
     rng = random.Random(a.seed)
     T = _common.Tally()
     stdlib = sysconfig.get_paths()["stdlib"]
-    site = os.path.join(os.path.dirname(os.path.dirname(os.path.dirname(os.path.realpath(sys.executable)))), "lib")
     site = "/venv/lib/python3.12/site-packages" if os.path.isdir("/venv/lib/python3.12/site-packages") else None
     std_files = list_py(stdlib)
     jobs = []
@@ -945,12 +1063,13 @@ def main():
         jobs += [("site-packages:" + os.path.relpath(p, site), p) for p in sorted(pick)]
 
     # start the IPython worker early, in parallel
+    ipydir = tempfile.mkdtemp(prefix="b10_ipy_")  # IPython profile/history go here, not to ~/.ipython
     ipy = subprocess.Popen([sys.executable, os.path.abspath(__file__), "--ipython-worker", "--repo", a.repo],
-                           stdout=subprocess.PIPE, stderr=subprocess.PIPE, text=True,
-                           env={**os.environ, "PYTHONPATH": a.repo + os.pathsep + os.environ.get("PYTHONPATH", ""), "PYTHONDONTWRITEBYTECODE": "1"})
+                           stdout=subprocess.PIPE, stderr=subprocess.PIPE, text=True, cwd=ipydir,
+                           env={**os.environ, "PYTHONPATH": a.repo + os.pathsep + os.environ.get("PYTHONPATH", ""), "PYTHONDONTWRITEBYTECODE": "1", "IPYTHONDIR": ipydir})
 
     import multiprocessing as mp
-    nproc = 4 if a.tier == "quick" else 7
+    nproc = 4 if a.tier == "quick" else 6
     skipped = 0
     tot = {"ndefs": 0, "nclasses": 0, "nasync": 0, "nlambda": 0}
     with mp.get_context("fork").Pool(nproc) as pool:
@@ -1003,6 +1122,7 @@ def main():
     except subprocess.TimeoutExpired:
         ipy.kill()
         out, err = ipy.communicate()
+    shutil.rmtree(ipydir, ignore_errors=True)
     line = next((ln for ln in out.splitlines() if ln.startswith("IPYRESULT ")), None)
     ipy_note = ""
     if line is None:
@@ -1028,7 +1148,7 @@ def main():
              f"{len(mods)} generated modules ({len(SPECIALS)} degenerate modules; {len(HEADERS) if a.tier != 'quick' else len(QUICK_HEADERS)} docstring/__future__/leading-constant headers x {len(FRAGMENTS)} body fragments"
              + ("" if a.tier == "quick" else " + 60 seeded multi-fragment modules") + "), each checked statically under "
              + ("2" if a.tier == "quick" else "3") + " typechecker settings and exec'd plain vs hooked(typechecker=None); IPython: load_ext + magic with 2 checkers, 5 cells through shell.transform_ast, 1 run_cell"
-             + ipy_note + ". Excluded: modules that themselves bind the name `jaxtyping` (name capture is outside the statement), co_firstlineno of class bodies, behaviour that inspects wrapper identity (__defaults__, is-comparisons of functions).")
+             + ipy_note + ". Excluded: modules that themselves bind the name `jaxtyping` (name capture is outside the statement), co_firstlineno of class bodies, behaviour that inspects wrapper identity or the call stack (__defaults__/__code__ of the wrapper, sys._getframe/stacklevel, recursion depth).")
     rule = ("corpus file = one case (non-trivial iff it has >=1 sync def or class); transformer run on ast.parse(src) with Typechecker('typeguard.typechecked'); own strip() removes the last decorator of every FunctionDef and the "
             "first of every ClassDef (each must be jaxtyping.jaxtyped(typechecker=E) with E evaluating to a decorator that behaves like the requested checker) and one `import jaxtyping` whose index lies between the end of the "
             "docstring/__future__ run and the first statement containing a def/class; remaining ast.dump(include_attributes=True) must equal the pristine parse; if the module has no def/class a missing import is accepted "
